@@ -29,6 +29,8 @@ type Mutant struct {
 
 var Mutants = map[string][]Mutant{
 	"C01": {
+		{"islands reversed like holes", "path_intersection.go", `if windings%2 != 0 \{`, "if 0 < windings {", "E9.hole-parity"},
+		{"result windings copied to the other end point only when incremented", "path_intersection.go", `\t\t\t\t\tcur\.resultWindings\+\+\n\t\t\t\t\}\n\t\t\t\tcur\.other\.resultWindings = cur\.resultWindings\n\t\t\t\tcur\.other\.inResult--`, "\t\t\t\t\tcur.resultWindings++\n\t\t\t\t\tcur.other.resultWindings = cur.resultWindings\n\t\t\t\t}\n\t\t\t\tcur.other.inResult--", "E9.windings-sync"},
 		{"merged segment keeps its link to an absorbed segment", "path_intersection.go", `\ts\.other\.inResult = s\.inResult\n\ts\.prev = prev\n`, "\ts.other.inResult = s.inResult\n", "E9.absorbed-link"},
 		{"disjoint-P shortcut forgets NOT", "path_intersection.go", `op == opOR \|\| op == opXOR \|\| op == opNOT \|\| op == opDIV`, `op == opOR || op == opXOR || op == opDIV`, "E9.shortcut"},
 		{"And membership uses ||", "path_intersection.go", `belowFills = fillRule\.Fills\(lowerWindings\) && fillRule\.Fills\(lowerOtherWindings\)`, `belowFills = fillRule.Fills(lowerWindings) || fillRule.Fills(lowerOtherWindings)`, "E9.membership"},
@@ -36,6 +38,8 @@ var Mutants = map[string][]Mutant{
 		{"empty Q returns P for And", "path_intersection.go", `if op == opAND \{\n\t\t\treturn &Path\{\}\n\t\t\}\n\t\treturn ps\.Settle\(fillRule\)`, `return ps.Settle(fillRule)`, "E9.shortcut"},
 	},
 	"C02": {
+		{"islands reversed like holes", "path_intersection.go", `if windings%2 != 0 \{`, "if 0 < windings {", "E9.hole-parity"},
+		{"result windings copied to the other end point only when incremented", "path_intersection.go", `\t\t\t\t\tcur\.resultWindings\+\+\n\t\t\t\t\}\n\t\t\t\tcur\.other\.resultWindings = cur\.resultWindings\n\t\t\t\tcur\.other\.inResult--`, "\t\t\t\t\tcur.resultWindings++\n\t\t\t\t\tcur.other.resultWindings = cur.resultWindings\n\t\t\t\t}\n\t\t\t\tcur.other.inResult--", "E9.windings-sync"},
 		{"merged segment keeps its link to an absorbed segment", "path_intersection.go", `\ts\.other\.inResult = s\.inResult\n\ts\.prev = prev\n`, "\ts.other.inResult = s.inResult\n", "E9.absorbed-link"},
 		{"Negative rule includes zero", "path.go", `return windings < 0`, `return windings <= 0`, "E9.fills"},
 		{"EvenOdd tests == 1", "path.go", `return windings%2 != 0`, `return windings%2 == 1`, "E9.fills"},
@@ -81,6 +85,7 @@ var Mutants = map[string][]Mutant{
 		{"Rect.Add max reads the low field", "util.go", `x1 := math\.Max\(r\.X1, q\.X1\)`, `x1 := math.Max(r.X1, q.X0)`, "E3.mirror"},
 	},
 	"C09": {
+		{"SplitAt does not lift the pen between sub-paths", "path.go", `\t\t\t\tend = Point\{ps\.d\[i\+1\], ps\.d\[i\+2\]\}\n\t\t\t\tq\.MoveTo\(end\.X, end\.Y\)\n`, "\t\t\t\tend = Point{ps.d[i+1], ps.d[i+2]}\n", "E2.move-replayed"},
 		{"Reverse keeps the closed flag across sub-paths", "path.go", `\t\t\t\tq\.d = append\(q\.d, CloseCmd, first\.X, first\.Y, CloseCmd\)\n\t\t\t\tclosed = false\n\t\t\t\}\n\t\t\tif i != 0 \{`, "\t\t\t\tq.d = append(q.d, CloseCmd, first.X, first.Y, CloseCmd)\n\t\t\t}\n\t\t\tif i != 0 {", "E11.subpath-flag"},
 		{"half-turn shortcut taken for a chord equal to the radius", "path_util.go", `Equal\(math\.Abs\(x2-x1\), 2\.0\*rx\)`, "Equal(math.Abs(x2-x1), rx)", "E3.arc-shortcut"},
 		{"SplitAt reads the whole path's data", "path.go", `cp := Point\{ps\.d\[i\+1\], ps\.d\[i\+2\]\}\n\t\t\t\tend = Point\{ps\.d\[i\+3\], ps\.d\[i\+4\]\}\n\n\t\t\t\tif j == len\(ts\) \{\n\t\t\t\t\tq\.QuadTo`, "cp := Point{p.d[i+1], p.d[i+2]}\n\t\t\t\tend = Point{ps.d[i+3], ps.d[i+4]}\n\n\t\t\t\tif j == len(ts) {\n\t\t\t\t\tq.QuadTo", "E2.cursor-domain"},
@@ -98,6 +103,8 @@ var Mutants = map[string][]Mutant{
 		{"Close retags one end only", "path.go", `\t\tp\.d\[len\(p\.d\)-1\] = CloseCmd\n\t\tp\.d\[len\(p\.d\)-cmdLen\(LineToCmd\)\] = CloseCmd\n`, "\t\tp.d[len(p.d)-1] = CloseCmd\n", "E2.retag"},
 	},
 	"C11": {
+		{"dec prints Precision decimals again", "util.go", `\ts := fmt\.Sprintf\("%\.\*f", decimals, f\)\n`, "\ts := fmt.Sprintf(\"%.*f\", Precision, f)\n\t_ = decimals\n", "E11.precision-unit"},
+		{"bad path data drawn anyway", "svg.go", `\t\t\tbreak // p is nil\n`, "", "E4.value-on-error"},
 		{"smooth cubic reflects after any command", "path.go", `\t\t\tif prevCmd == 'C' \|\| prevCmd == 'c' \|\| prevCmd == 'S' \|\| prevCmd == 's' \{\n\t\t\t\tcp1 = p0\.Mul\(2\.0\)\.Sub\(c\)\n\t\t\t\}\n`, "\t\t\tcp1 = p0.Mul(2.0).Sub(c)\n", "E11.svg-smooth"},
 		{"smooth quad forgets its control point", "path.go", `\t\t\tp\.QuadTo\(cp\.X, cp\.Y, p1\.X, p1\.Y\)\n\t\t\tq = cp\n\t\tcase 'A', 'a':`, "\t\t\tp.QuadTo(cp.X, cp.Y, p1.X, p1.Y)\n\t\tcase 'A', 'a':", "E11.svg-smooth"},
 		{"upper-case closepath may be repeated", "path.go", `if cmd == 'z' \|\| cmd == 'Z' \|\| !\(path\[i\]`, "if cmd == 'z' || !(path[i]", "E4.parser-progress"},
@@ -161,6 +168,7 @@ var Mutants = map[string][]Mutant{
 		{"setter writes the stack", "canvas.go", `func \(c \*Context\) SetStrokeWidth\(width float64\) \{\n`, "func (c *Context) SetStrokeWidth(width float64) {\n\tc.stack = nil\n", "E11.ctx-setter"},
 	},
 	"C16": {
+		{"newline of a CRLF pair owned by no item", "text/linebreak.go", `\t\t\tif glyph\.Text != '\\n' \|\| i == 0 \|\| glyphs\[i-1\]\.Text != '\\r' \{`, "\t\t\tif glyph.Text == '\\n' && 0 < i && glyphs[i-1].Text == '\\r' {\n\t\t\t\tcontinue\n\t\t\t}\n\t\t\t{", "E11.items-cover-glyphs"},
 		{"glyph offset not advanced for penalties", "text.go", `\t\t\t\t\tshrink \+= items\[i\]\.Shrink\n\t\t\t\t\}\n\t\t\t\tbg2 \+= items\[i\]\.Size\n`, "\t\t\t\t\tshrink += items[i].Shrink\n\t\t\t\t\tbg2 += items[i].Size\n\t\t\t\t}\n", "E11.glyph-cursor"},
 		{"centred spans all placed at one X", "text.go", `line\.spans\[k\]\.X -= x / 2\.0`, "line.spans[k].X = -x / 2.0", "E11.span-shift"},
 		{"breakpoint width without the hyphen", "text/linebreak.go", `\t\t\twidth := lb\.W\n\t\t\tif lb\.items\[b\]\.Type == PenaltyType \{\n\t\t\t\twidth \+= lb\.items\[b\]\.Width\n\t\t\t\}\n`, "\t\t\twidth := lb.W\n", "E11.break-width"},
